@@ -57,6 +57,24 @@ def SealedL : List Expr → Prop
   | c :: cs => Sealed c ∧ SealedL cs
 end
 
+/-- Executable form of `Sealed` (evaluated by the driver on every template and argument set). -/
+def Kind.sealedAtB (k : Kind) (cs : List Expr) : Bool :=
+  match k with
+  | .param .set => (unresolvedL cs).isEmpty
+  | .utxoSet _ => (unresolvedL cs).isEmpty
+  | .param (.expectValue _ _) => cs.isEmpty
+  | .param .expectFees => cs.isEmpty
+  | _ => true
+
+mutual
+def sealedb : Expr → Bool
+  | leaf _ => true
+  | node k cs => Kind.sealedAtB k cs && sealedbL cs
+def sealedbL : List Expr → Bool
+  | [] => true
+  | c :: cs => sealedb c && sealedbL cs
+end
+
 end Expr
 
 def Tx.unresolved (t : Tx) : List PRef := t.slots.flatMap Expr.unresolved
